@@ -512,7 +512,12 @@ def build_request(rllen, fields, body=b""):
     rl = b"GET /" + b"a" * pad + b" HTTP/1.1"
     lines = [rl]
     for i, (kind, ln) in enumerate(fields):
-        name = {"plain": b"X-F%d" % i, "under": b"X_F%d" % i, "cl": b"Content-Length", "wscolon": b"X-W%d" % i}[kind]
+        name = {"plain": b"X-F%d" % i, "under": b"X_F%d" % i, "cl": b"Content-Length", "wscolon": b"X-W%d" % i, "fold": b"X-O"}[kind]
+        if kind == "fold":
+            # one field folded over ln + 1 physical lines (obsolete line folding, accepted with permit_obsolete_folding)
+            lines.append(b"X-O%d: v" % i)
+            lines += [b" c%d" % j for j in range(ln)]
+            continue
         if kind == "wscolon":
             # a field that is long only through blanks between its name and the colon (accepted, and stripped, with the
             # documented strip_header_spaces setting)
@@ -555,7 +560,9 @@ def limit_record(ctx, cfgkw, rllen, fields, cuts_kind, rng, body=b"", proxy=Fals
         cuts = rand_cuts(rng, len(data))
     cfg = drv.make_cfg(**cfgkw)
     obs = drv.run(data, cuts, cfg=cfg, mode="read", source="sock" if cuts_kind == "8k" else "iter")
-    lens = [len(x) for x in plain.split(b"\r\n\r\n")[0].split(b"\r\n")]
+    phys = plain.split(b"\r\n\r\n")[0].split(b"\r\n")
+    # a field = a line that does not start with SP / HTAB (continuation lines belong to the field above them)
+    lens = [len(phys[0])] + [len(x) for x in phys[1:] if not x[:1] in (b" ", b"\t")]
     ev = {"e": "limit", "cfg": eff_limits(cfgkw.get("limit_request_line", 4094),
                                          cfgkw.get("limit_request_fields", 100),
                                          cfgkw.get("limit_request_field_size", 8190)),
@@ -701,6 +708,12 @@ def c12(ctx):
                     fields = [("plain", 12)] * 3
                     fields[pos] = ("plain", ln)
                     add(*limit_record(ctx, {"limit_request_field_size": S}, 14, fields, ck, rng))
+    # obsolete line folding permitted: the limit counts fields, not physical lines
+    for F in (3, 6, 100):
+        for nfold in (F - 1, F + 5, 3 * F):
+            for ck in ("whole", "rand"):
+                add(*limit_record(ctx, {"limit_request_fields": F, "permit_obsolete_folding": True}, 14,
+                                  [("plain", 12), ("fold", nfold), ("plain", 12)], ck, rng))
     # fields whose size comes from whitespace before the colon, with strip_header_spaces on
     for S in (32, 64, 200):
         for d in (-3, -1, 0, 1, 2, 30, 400):
